@@ -229,6 +229,10 @@ def body(case, ctx: Ctx):
                     total_coll = float(eth if k != "mint" else 0) + (w.vault_ref(vk)[0] if vk is not None else 0.0) + ((float(lw_) + float(lo_) * w.nf() * w.twap_eth() / 1e4) if lp is not None else 0.0)
                     must_accept = base_coll > 0 and D(op[4]) <= D("0.999") and (total_coll >= 0.5005 or D(op[4]) == 0 and (vk is None or w.sq.vault[vk].osqth_short_amount == 0)) and wal_w >= (eth if k != "mint" else 0) * D("1.0001") and not (k == "mint" and vk is None)
                     osq = D(repr(max_osq)) * D(op[4])
+                    # "with margin" is meant against the vault's whole collateral: a vault already standing at the limit has no
+                    # room whose 99.9% could be told from 100% in floating point
+                    debt_after_ = (w.vault_ref(vk)[1] if vk is not None else 0.0) + float(osq) * w.nf() * w.twap_eth() / 1e4
+                    must_accept = must_accept and 1.5 * debt_after_ <= total_coll * (1 - 1e-6)
                     ret = w.sq.open_deposit_mint(eth, osq, vk, lp) if k != "mint" else w.sq.open_deposit_mint(D(0), osq, vk, None)
                     tgt = ret[0]
                     if tgt not in w.vaults:
